@@ -1,14 +1,18 @@
 (* Async/ConnTotal.v — totality of the connection task model (Async/Conn.v):
-   for every read script, write script (faults included), segment table and gating, and every
-   well-formed handler script, [run_loop] returns [ORet] or [ODeadlock]: no Rust panic site is reached
-   and no loop bound of the model is exhausted (C12; no-panic backbone of C07/C09/C11).
-   If the client is not gated (every gate is (0,0)) the outcome is [ORet]. *)
+   (i)   for every read script, write script (faults included), segment table and gating, and every
+         well-formed handler script, [run_loop] returns [ORet] or [ODeadlock]: no Rust panic site is reached
+         and no loop bound of the model is exhausted (C12; no-panic backbone of C07/C09/C11);
+   (ii)  [ODeadlock] means that the task waits for a GATED client (so: if the client is not gated — every gate is
+         (0,0) — the outcome is [ORet]) when the handlers cannot reach a StreamWriter op with Request.lock held:
+         (a) no write fault on the transport and handlers that await their reads, or (b) handlers that propagate
+         I/O errors (any transport);
+   (iii) without such a condition that is false: run_loop_terminates_unrestricted_refuted (known findings F5/F6). *)
 From Coq Require Import ZArith.
 From FV Require Import Base.Bytes Base.BytesLemmas Gen.Generated Codec.Varint Codec.NV Codec.Header Codec.Bodies
   Codec.Vars Codec.ProtoProofs
   Parser.ReqModel Parser.ReqParamsSpec Parser.ReqWire Parser.ReqTargets Parser.ReqParams Parser.ReqDrive
   Parser.ReqRecords Parser.ReqFinal
-  Parser.StreamModel Parser.AbsStream Parser.StreamRefine Parser.StreamSeqProofs Parser.EnvCanon Async.Conn.
+  Parser.StreamModel Parser.AbsStream Parser.StreamRefine Parser.StreamSeqProofs Parser.EnvCanon Async.Conn Async.ConnWrites.
 From Coq Require Import ZifyBool ZifyNat ZifyN.
 Ltac Zify.zify_post_hook ::= Z.div_mod_to_equations.
 
@@ -35,11 +39,13 @@ Variable some : bool.
 
 (* loop invariant of Parser::parse: buffer size / request / stream untouched, the unparsed bytes stay
    bytes, nothing is created (stream buffer + unparsed + delivered never grows), and with a
-   destination buffer the internal stream buffer is not touched *)
+   destination buffer the internal stream buffer is not touched; without one, Status.stream counts exactly the bytes
+   appended to the internal stream buffer *)
 Definition linv (l : alstate) : Prop :=
   a_B (al l) = B0 /\ a_req (al l) = q0 /\ a_stream (al l) = s0 /\ bytes_ok (a_raw (al l)) /\
   is_some (acap l) = some /\ (some = true -> a_parsed (al l) = P0) /\
-  len (a_parsed (al l)) + len (a_raw (al l)) + dcount (acap l) (ares l) <= K.
+  len (a_parsed (al l)) + len (a_raw (al l)) + dcount (acap l) (ares l) <= K /\
+  (some = false -> len (a_parsed (al l)) = len P0 + s_stream (ares l)).
 
 Definition fpost (f : aflow) : Prop :=
   match f with
@@ -51,9 +57,10 @@ Lemma apfin_inv a a' res cap' consumed :
   a_B a' = B0 -> a_req a' = q0 -> a_stream a' = s0 -> bytes_ok (a_raw a) -> is_some cap' = some ->
   (some = true -> a_parsed a' = P0) ->
   (consumed <= len (a_raw a) -> len (a_parsed a') + (len (a_raw a) - consumed) + dcount cap' res <= K) ->
+  (some = false -> len (a_parsed a') = len P0 + s_stream res) ->
   fpost (apfin a a' res cap' consumed).
 Proof.
-  intros HB Hq Hs Hok Hc HP HK. unfold apfin.
+  intros HB Hq Hs Hok Hc HP HK HN. unfold apfin.
   destruct (N.ltb_spec (N.min (a_prem a) (len (a_raw a))) consumed) as [Hlt|Hge]; [exact I|].
   assert (L : linv (mkAL (a_set a' (a_parsed a') (drop consumed (a_raw a)) (a_out a') (a_prem a - consumed) (a_pad a') (a_st a'))
                          res cap')).
@@ -67,17 +74,19 @@ Qed.
 
 Lemma aparse_payload_inv l : linv l -> fpost (aparse_payload maxc l).
 Proof.
-  intros (HB & Hq & Hs & Hok & Hc & HP & HK). rewrite aparse_payload_unfold. cbn zeta.
+  intros (HB & Hq & Hs & Hok & Hc & HP & HK & HN). rewrite aparse_payload_unfold. cbn zeta.
   set (a := al l) in *.
   set (pl := N.min (a_prem a) (len (a_raw a))).
   assert (Hpl : pl <= len (a_raw a)) by (subst pl; lia).
   destruct (a_st a) eqn:Est.
   - destruct (acap l) as [c|] eqn:Ec.
     + apply apfin_inv; try assumption.
-      intros _. unfold add_stream, dcount in *. cbn [s_stream]. lia.
+      * intros _. unfold add_stream, dcount in *. cbn [s_stream]. lia.
+      * intros E. rewrite <- Hc in E. discriminate.
     + apply apfin_inv; unfold a_set; cbn [a_B a_req a_stream a_parsed]; try assumption.
       * intros E. rewrite <- Hc in E. discriminate.
       * intros _. unfold dcount in *. rewrite len_app, len_take. lia.
+      * intros E. unfold add_stream. cbn [s_stream]. rewrite len_app, len_take, (HN E). lia.
   - apply apfin_inv; try assumption. intros _. lia.
   - destruct (nv_run (take pl (a_raw a))) as [ps rest].
     destruct (len (a_raw a) <? a_prem a).
@@ -88,7 +97,7 @@ Qed.
 
 Lemma ahgo_inv l st cl pl out added : linv l -> HEADER_LEN <= len (a_raw (al l)) -> fpost (ahgo l st cl pl out added).
 Proof.
-  intros (HB & Hq & Hs & Hok & Hc & HP & HK) Hl. unfold ahgo, fpost, linv, a_set, add_output, dcount in *.
+  intros (HB & Hq & Hs & Hok & Hc & HP & HK & HN) Hl. unfold ahgo, fpost, linv, a_set, add_output, dcount in *.
   cbn [al ares acap a_B a_req a_stream a_raw a_parsed s_stream].
   repeat split; try assumption.
   - apply bytes_ok_drop. exact Hok.
@@ -101,7 +110,7 @@ Proof.
   destruct (a_boundary (al l)); cbn [negb]; [|exact I].
   destruct (N.ltb_spec (len (a_raw (al l))) HEADER_LEN) as [Hs|Hs]; [exact L|].
   assert (SE : linv (mkAL (al l) (set_end (ares l)) (acap l))).
-  { destruct L as (HB & Hq & Hst & Hok & Hc & HP & HK). unfold linv, set_end, dcount in *.
+  { destruct L as (HB & Hq & Hst & Hok & Hc & HP & HK & HN). unfold linv, set_end, dcount in *.
     cbn [al ares acap s_stream]. repeat split; assumption. }
   destruct (hdr_decode (take HEADER_LEN (a_raw (al l)))) as [t id cl pl|v|t].
   - destruct (is_input_stream t && (id =? r_id (a_req (al l)))).
@@ -122,7 +131,7 @@ Proof.
   intros L. unfold aafter_pl. cbn zeta.
   destruct (0 <? a_pad (al l)); [|apply aparse_head_inv; exact L].
   destruct (negb (a_prem (al l) =? 0)); [exact I|].
-  destruct L as (HB & Hq & Hst & Hok & Hc & HP & HK).
+  destruct L as (HB & Hq & Hst & Hok & Hc & HP & HK & HN).
   destruct (len (a_raw (al l)) <=? a_pad (al l)).
   - unfold fpost, linv, a_set. cbn [al ares acap a_B a_req a_stream a_raw a_parsed].
     repeat split; try assumption; [constructor|]. rewrite len_nil. lia.
@@ -153,7 +162,8 @@ End AbsFacts.
 Definition aparse_keeps (a : ast) (new : bytes) (dest : option N) (a' : ast) (s : status) : Prop :=
   a_B a' = a_B a /\ a_req a' = a_req a /\ a_stream a' = a_stream a /\ bytes_ok (a_raw a') /\
   (dest <> None -> a_parsed a' = a_parsed a) /\
-  len (a_parsed a') + len (a_raw a') + dcount dest s <= len (a_parsed a) + len (a_raw a) + len new.
+  len (a_parsed a') + len (a_raw a') + dcount dest s <= len (a_parsed a) + len (a_raw a) + len new /\
+  (dest = None -> len (a_parsed a') = len (a_parsed a) + s_stream s).
 
 Lemma dcount_some {A} (c c' : option A) s : is_some c = is_some c' ->
   match c with Some _ => s_stream s | None => 0 end = match c' with Some _ => s_stream s | None => 0 end.
@@ -173,17 +183,19 @@ Proof.
   set (res0 := mkStatus 0 (match a_stream a with None => true | Some _ => false end) 0 []).
   assert (L0 : linv (a_B a) (a_req a) (a_stream a) (a_parsed a) (len (a_parsed a) + len (a_raw a) + len new)
                     (is_some dest) (mkAL a1 res0 dest)).
-  { unfold linv. subst a1 res0. cbn [al ares acap a_B a_req a_stream a_raw a_parsed].
+  { unfold linv. subst a1 res0. cbn [al ares acap a_B a_req a_stream a_raw a_parsed s_stream].
     repeat split; try reflexivity.
     - apply bytes_ok_app. split; assumption.
-    - rewrite len_app. unfold dcount. destruct dest; cbn [s_stream]; lia. }
+    - rewrite len_app. unfold dcount. destruct dest; cbn [s_stream]; lia.
+    - lia. }
   pose proof (aparse_loop_inv maxc _ _ _ _ _ _ (2 * N.to_nat (a_B a) + 8) _ L0) as P.
   assert (G : forall l, linv (a_B a) (a_req a) (a_stream a) (a_parsed a) (len (a_parsed a) + len (a_raw a) + len new)
                              (is_some dest) l -> aparse_keeps a new dest (al l) (ares l)).
-  { intros l (HB & Hq & Hs & Hok & Hc & HP & HK). unfold aparse_keeps.
+  { intros l (HB & Hq & Hs & Hok & Hc & HP & HK & HN). unfold aparse_keeps.
     repeat split; try assumption.
     - intros Hd. apply HP. destruct dest; [reflexivity|contradiction].
-    - unfold dcount in *. rewrite (dcount_some dest (acap l)) by (symmetry; exact Hc). exact HK. }
+    - unfold dcount in *. rewrite (dcount_some dest (acap l)) by (symmetry; exact Hc). exact HK.
+    - intros Hd. apply HN. rewrite Hd. reflexivity. }
   destruct (aparse_loop maxc (2 * N.to_nat (a_B a) + 8) (mkAL a1 res0 dest)) as [l|l|l e|n]; cbn [fpost] in P;
     try (apply G; exact P). exact I.
 Qed.
@@ -193,7 +205,8 @@ Qed.
 Definition sparse_keeps (p : sp) (new : bytes) (dest : option N) (p' : sp) (s : status) : Prop :=
   RI p' /\ stream p' = stream p /\ sreq p' = sreq p /\ len (buffer p') = len (buffer p) /\
   bytes_ok (raw_bytes p') /\ (dest <> None -> stream_buffer p' = []) /\
-  len (stream_buffer p') + len (raw_bytes p') + dcount dest s <= len (stream_buffer p) + len (raw_bytes p) + len new.
+  len (stream_buffer p') + len (raw_bytes p') + dcount dest s <= len (stream_buffer p) + len (raw_bytes p) + len new /\
+  (dest = None -> len (stream_buffer p') = len (stream_buffer p) + s_stream s).
 
 Lemma sparse_facts maxc p new dest : RI p -> stream_ok p -> bytes_ok (raw_bytes p) -> bytes_ok new ->
   len new <= sinput_space p -> (dest <> None -> stream_buffer p = []) ->
@@ -208,10 +221,10 @@ Proof.
   pose proof (aparse_facts maxc (abs p) new dest Hraw Hnew) as F. rewrite Ga in F.
   destruct (sparse maxc p new dest) as [p' s|p' e s|n]; cbn [absres sparse_post] in *;
     [| |exact (NP n eq_refl)];
-    destruct Gb as [R' S']; destruct F as (F1 & F2 & F3 & F4 & F5 & F6);
+    destruct Gb as [R' S']; destruct F as (F1 & F2 & F3 & F4 & F5 & F6 & F7);
     cbn [abs a_B a_req a_stream a_raw a_parsed] in *;
     (split; [exact R'|]; split; [exact S'|]; split; [exact F2|]; split; [exact F1|]; split; [exact F4|];
-     split; [intros Hx; rewrite (F5 Hx); apply Hd; exact Hx|exact F6]).
+     split; [intros Hx; rewrite (F5 Hx); apply Hd; exact Hx|split; [exact F6|exact F7]]).
 Qed.
 
 (* ------------------------------------------------------------------------------------------ *)
@@ -335,13 +348,14 @@ Record wstep (w w' : world) : Prop := mkWstep {
   ws_b : (nb w' <= nb w)%nat;
   ws_stop : stopped w = true -> stopped w' = true;
   ws_ug : ungated w -> ungated w';
-  ws_ok : world_ok w -> world_ok w' }.
+  ws_ok : world_ok w -> world_ok w';
+  ws_nf : no_fault (wscript w) -> no_fault (wscript w') }.   (* a transport that has no write fault left keeps none *)
 
 Lemma wstep_refl w : wstep w w.
 Proof. constructor; auto. Qed.
 
 Lemma wstep_trans a b c : wstep a b -> wstep b c -> wstep a c.
-Proof. intros [A1 A2 A3 A4 A5 A6] [B1 B2 B3 B4 B5 B6]. constructor; auto; lia. Qed.
+Proof. intros [A1 A2 A3 A4 A5 A6 A7] [B1 B2 B3 B4 B5 B6 B7]. constructor; auto; lia. Qed.
 
 Lemma wstep_ev w e : wstep w (w_ev w e).
 Proof. constructor; auto. Qed.
@@ -354,8 +368,12 @@ Qed.
 Lemma wstep_stop w : wstep w (w_stop w).
 Proof. constructor; auto. Qed.
 
-Lemma wstep_set_w w ws lg : (length ws <= length (wscript w))%nat -> wstep w (w_set_w w ws lg).
-Proof. intros H. constructor; auto. Qed.
+Lemma wstep_set_w w ws lg : suffix ws (wscript w) -> wstep w (w_set_w w ws lg).
+Proof.
+  intros H. constructor; auto.
+  - unfold w_set_w. cbn [wscript]. apply suffix_length. exact H.
+  - unfold w_set_w. cbn [wscript]. apply no_fault_suffix. exact H.
+Qed.
 
 Lemma sm_step w w' : wstep w w' -> (sm w' <= sm w)%nat.
 Proof.
@@ -402,7 +420,7 @@ Proof.
                  (length (drop k b) + length (flat_map (fun s : N * N * bytes => snd s) rest))%nat).
   { unfold nb, w_set_r. cbn [segs flat_map snd]. apply app_length. }
   split; [|lia].
-  constructor; [exact Hr|unfold w_set_r; cbn [wscript]; lia|lia|auto| |].
+  constructor; [exact Hr|unfold w_set_r; cbn [wscript]; lia|lia|auto| | |auto].
   - intros U. unfold ungated in *. cbn [segs]. pose proof (skip_Forall _ _ U) as U'. rewrite Es in U'.
     inversion U' as [|? ? U1 U2]; subst. constructor; [exact U1|exact U2].
   - intros U. unfold world_ok in *. cbn [segs]. pose proof (skip_Forall _ _ U) as U'. rewrite Es in U'.
@@ -473,9 +491,9 @@ Proof.
   intros Hne. unfold t_poll_write.
   assert (Hl : 1 <= len offer) by (pose proof (nonempty_length offer Hne); unfold len; lia).
   destruct (wscript w) as [|k ws'] eqn:Ew.
-  - split; [apply wstep_set_w; rewrite Ew; cbn [length]; lia|]. split; [lia|].
+  - split; [apply wstep_set_w; rewrite Ew; apply suffix_refl|]. split; [lia|].
     split; [left; repeat split|intros _; lia].
-  - assert (Hs : forall lg, wstep w (w_set_w w ws' lg)) by (intros lg; apply wstep_set_w; rewrite Ew; cbn [length]; lia).
+  - assert (Hs : forall lg, wstep w (w_set_w w ws' lg)) by (intros lg; apply wstep_set_w; rewrite Ew; exists [k]; reflexivity).
     destruct (k =? 0); [split; [apply Hs|unfold w_set_w; cbn [wscript length]; lia]|].
     destruct (k =? W_ZERO).
     { split; [apply Hs|]. split; [lia|]. split; [right; unfold w_set_w; cbn [wscript length]; lia|discriminate]. }
@@ -620,6 +638,15 @@ Proof.
   intros [G W] R' K B' ->. split; [cbn [rsp]; eapply pgood_transfer; eassumption|].
   destruct K as (K1 & K2 & K3). unfold wr_inv in *. cbn [rsp rwriteable]. rewrite K1, K2. exact W.
 Qed.
+
+(* the part of the invariant that Parser::parse needs to be a legal call (what the lock discipline below relies on) *)
+Definition lgood (p : sp) : Prop := RI p /\ stream_ok p /\ bytes_ok (raw_bytes p).
+
+Lemma pgood_lgood p : pgood p -> lgood p.
+Proof. intros (G1 & G2 & G3 & _). split; [exact G1|split; [exact G2|exact G3]]. Qed.
+
+Lemma lgood_transfer p p' : lgood p -> RI p' -> stream p' = stream p -> bytes_ok (raw_bytes p') -> lgood p'.
+Proof. intros (G1 & G2 & G3) R' S' B'. split; [exact R'|]. split; [apply (stream_ok_eq p p' S'); exact G2|exact B']. Qed.
 
 (* everything but the pending output *)
 Definition osame (p p' : sp) : Prop :=
@@ -813,7 +840,7 @@ Lemma sparse_ckeep r w new dest p' s lk : rgood r -> sparse_keeps (rsp r) new de
   ckeep r w (length new) (mkR p' (rwriteable r) lk (raborted r)) w (N.to_nat (dcount dest s)) /\
   (dest <> None -> stream_buffer p' = []).
 Proof.
-  intros G (K1 & K2 & K3 & K4 & K5 & K6 & K7). split; [|exact K6].
+  intros G (K1 & K2 & K3 & K4 & K5 & K6 & K7 & _). split; [|exact K6].
   split; [apply (rgood_transfer r); try assumption; try reflexivity; repeat split; assumption|].
   split; [apply wstep_refl|]. split; [repeat split; assumption|].
   unfold rsize, psize. cbn [rsp]. unfold len in K7. lia.
@@ -1010,6 +1037,183 @@ Lemma await_input_io dest r w : rgood r -> world_ok w ->
   end.
 Proof. intros G Wok. apply await_input_ok; try assumption. rewrite io_fuel_eq. unfold sm. destruct (stopped w); lia. Qed.
 
+
+(* ---- the request's output lock (Request.lock) ----
+   Request::poll_output takes the lock when it starts to flush a pending management reply and releases it only when
+   the reply is completely written: it stays held across Pending, and after a failed write ("keep lock even in the
+   Err case").  What follows: every AWAITED read returns with the lock released, unless it returned the error of a
+   failed reply flush (then a write fault was left in the write script). *)
+Lemma nf_back w w' : wstep w w' -> ~ no_fault (wscript w') -> ~ no_fault (wscript w).
+Proof. intros S H Hn. apply H. apply (ws_nf _ _ S Hn). Qed.
+
+Lemma poll_output_lock fuel r w : RI (rsp r) -> (length (wscript w) + 2 <= fuel)%nat ->
+  match poll_output fuel r w with
+  | (p, r', w') => okeep r r' /\ wstep w w' /\
+    match p with
+    | PReady (inl _) => rlock r' = false
+    | PReady (inr _) => ~ no_fault (wscript w)
+    | PWake => True
+    | PBlock => False
+    end
+  end.
+Proof.
+  intros HRI Hf.
+  pose proof (poll_output_ok fuel r w HRI ltac:(destruct (output_buffer (rsp r)); lia)) as PO.
+  destruct (poll_output fuel r w) as [[p r'] w'] eqn:E.
+  destruct (poll_output_spec _ _ _ _ _ _ E) as (n & _ & _ & _ & _ & _ & _ & _ & _ & _ & _ & L).
+  destruct p as [[u|k]| |].
+  - destruct PO as (A & B & _). split; [exact A|]. split; [exact B|]. apply L.
+  - destruct PO as (A & B & _). split; [exact A|]. split; [exact B|].
+    destruct L as [[_ L]|(_ & _ & _ & L)]; [lia|exact L].
+  - destruct PO as (A & B & _). split; [exact A|]. split; [exact B|exact I].
+  - contradiction.
+Qed.
+
+(* a poll of poll_input may start with the lock held only where it begins with poll_output: nothing is buffered for the
+   handler and the read is not the empty one *)
+Definition lk_pre (dest : option N) (r : rstate) : Prop :=
+  rlock r = false \/ (stream_buffer (rsp r) = [] /\ dest <> Some 0).
+
+Definition lk_post (dest : option N) (w : world) (x : pres (N * bytes + N) * rstate * world) : Prop :=
+  match x with
+  | (p, r', w') =>
+    lgood (rsp r') /\ wstep w w' /\
+    match p with
+    | PReady (inl _) => rlock r' = false
+    | PReady (inr _) => rlock r' = false \/ ~ no_fault (wscript w)
+    | _ => lk_pre dest r'
+    end
+  end.
+
+Lemma lk_post_pre dest w w1 x : wstep w w1 -> lk_post dest w1 x -> lk_post dest w x.
+Proof.
+  intros S. destruct x as [[p r'] w']. unfold lk_post. intros (A & B & C). split; [exact A|]. split; [eapply wstep_trans; eassumption|].
+  destruct p as [[u|k]| |]; try exact C. destruct C as [C|C]; [left; exact C|right; eapply nf_back; eassumption].
+Qed.
+
+Lemma input_loop_lock : forall fuel dest new r w, lgood (rsp r) -> world_ok w -> bytes_ok new ->
+  len new <= sinput_space (rsp r) -> stream_buffer (rsp r) = [] -> dest <> Some 0 -> rlock r = false ->
+  (length (wscript w) + nb w + 2 <= fuel)%nat ->
+  lk_post dest w (input_loop maxc fuel dest new r w).
+Proof.
+  induction fuel as [|f IH]; intros dest new r w G Wok Hnew Hfit Hsb Hd0 Hlk Hf; [lia|].
+  cbn [input_loop].
+  pose proof (sparse_facts maxc (rsp r) new dest (proj1 G) (proj1 (proj2 G)) (proj2 (proj2 G)) Hnew Hfit
+                ltac:(intros _; exact Hsb)) as SF.
+  destruct (sparse maxc (rsp r) new dest) as [p' s|p' e s|n]; [| |contradiction].
+  2:{ destruct SF as (K1 & K2 & K3 & K4 & K5 & _). unfold lk_post. cbn [rsp rlock].
+      split; [apply (lgood_transfer (rsp r)); assumption|]. split; [apply wstep_refl|left; exact Hlk]. }
+  destruct SF as (K1 & K2 & K3 & K4 & K5 & K6 & K7 & K8).
+  assert (G' : lgood p') by (apply (lgood_transfer (rsp r)); assumption).
+  destruct (s_end s || (0 <? s_stream s)) eqn:Edone.
+  { match goal with |- context [if ?c then _ else _] => destruct c end; unfold lk_post; cbn [rsp rlock];
+      (split; [exact G'|]; split; [apply wstep_refl|exact Hlk]). }
+  apply orb_false_iff in Edone. destruct Edone as [Eend Estr].
+  assert (Hz : s_stream s = 0) by (destruct (N.ltb_spec 0 (s_stream s)); [discriminate|lia]).
+  assert (Hsb1 : stream_buffer p' = []).
+  { destruct dest as [c|]; [apply K6; discriminate|]. apply len_zero_nil. rewrite (K8 eq_refl), Hsb, len_nil, Hz. reflexivity. }
+  destruct (compress_views p' K1) as (V1 & V2 & V3 & V4 & V5 & V6).
+  set (r2 := mkR (compress p') (rwriteable r) (rlock r) (raborted r)).
+  pose proof (poll_output_lock (S f) r2 w V1 ltac:(lia)) as PO.
+  destruct (poll_output (S f) r2 w) as [[po r3] w0]. destruct PO as ((R3 & O3 & _) & S3 & L3).
+  destruct (osame_views _ _ O3) as (U1 & U2 & U3 & (_ & U4 & _) & _). cbn [r2 rsp] in U1, U2, U3, U4.
+  assert (G3 : lgood (rsp r3)).
+  { apply (lgood_transfer p'); [exact G'|exact R3| |rewrite U2, V3; apply G']. rewrite U4. apply V5. }
+  assert (Hsb3 : stream_buffer (rsp r3) = []) by (rewrite U1, V2; exact Hsb1).
+  destruct po as [[u|k]| |].
+  - pose proof (t_poll_read_spec (sinput_space (rsp r3)) w0) as PR.
+    assert (Wok0 : world_ok w0) by (apply (ws_ok _ _ S3 Wok)).
+    destruct (t_poll_read (sinput_space (rsp r3)) w0) as [[[b|k]| |] w1].
+    + destruct PR as (S4 & Hb & Hl & Hn).
+      destruct b as [|x b'].
+      { unfold lk_post. split; [exact G3|]. split; [eapply wstep_trans; eassumption|left; exact L3]. }
+      assert (Hf' : (length (wscript w1) + nb w1 + 2 <= f)%nat).
+      { pose proof (ws_w _ _ S3). pose proof (ws_w _ _ S4). pose proof (ws_b _ _ S3). cbn [length] in Hn. lia. }
+      apply (lk_post_pre dest w w1); [eapply wstep_trans; eassumption|].
+      apply IH; try assumption; [apply (ws_ok _ _ S4 Wok0)|apply Hb; exact Wok0].
+    + destruct PR as (S4 & _). unfold lk_post. split; [exact G3|]. split; [eapply wstep_trans; eassumption|left; exact L3].
+    + destruct PR as (S4 & _). unfold lk_post. split; [exact G3|]. split; [eapply wstep_trans; eassumption|left; exact L3].
+    + destruct PR as (-> & _). unfold lk_post. split; [exact G3|]. split; [exact S3|left; exact L3].
+  - unfold lk_post. split; [exact G3|]. split; [exact S3|right; exact L3].
+  - unfold lk_post. split; [exact G3|]. split; [exact S3|]. right. split; [exact Hsb3|exact Hd0].
+  - contradiction.
+Qed.
+
+Lemma poll_input_lock fuel dest r w : lgood (rsp r) -> world_ok w -> lk_pre dest r ->
+  (length (wscript w) + nb w + 2 <= fuel)%nat -> lk_post dest w (poll_input maxc fuel dest r w).
+Proof.
+  intros G Wok Hpre Hf.
+  assert (EMPTY : stream_buffer (rsp r) = [] -> dest <> Some 0 ->
+    lk_post dest w (match poll_output fuel r w with
+                    | (PReady (inl _), r', w') => input_loop maxc fuel dest [] r' w'
+                    | (PReady (inr k), r', w') => (PReady (inr k), r', w')
+                    | (PWake, r', w') => (PWake, r', w')
+                    | (PBlock, r', w') => (PBlock, r', w')
+                    end)).
+  { intros Esb Hd0. pose proof (poll_output_lock fuel r w (proj1 G) ltac:(lia)) as PO.
+    destruct (poll_output fuel r w) as [[po r1] w1]. destruct PO as ((R1 & O1 & _) & S1 & L1).
+    destruct (osame_views _ _ O1) as (U1 & U2 & U3 & (_ & U4 & _) & _).
+    assert (G1 : lgood (rsp r1)) by (apply (lgood_transfer (rsp r)); [exact G|exact R1|exact U4|rewrite U2; apply G]).
+    assert (Hsb1 : stream_buffer (rsp r1) = []) by (rewrite U1; exact Esb).
+    destruct po as [[u|k]| |].
+    - apply (lk_post_pre dest w w1 _ S1).
+      apply input_loop_lock; try assumption; [apply (ws_ok _ _ S1 Wok)|constructor|rewrite len_nil; lia|].
+      pose proof (ws_w _ _ S1). pose proof (ws_b _ _ S1). lia.
+    - unfold lk_post. split; [exact G1|]. split; [exact S1|right; exact L1].
+    - unfold lk_post. split; [exact G1|]. split; [exact S1|]. right. split; [exact Hsb1|exact Hd0].
+    - contradiction. }
+  assert (FREE : dest = Some 0 \/ stream_buffer (rsp r) <> [] -> rlock r = false).
+  { intros H. destruct Hpre as [Hl|[Hs Hd]]; [exact Hl|]. destruct H as [H|H]; [contradiction|contradiction]. }
+  unfold poll_input. cbv zeta.
+  destruct dest as [[|pc]|]; destruct (stream_buffer (rsp r)) as [|x sb] eqn:Esb.
+  - unfold lk_post. split; [exact G|]. split; [apply wstep_refl|]. apply FREE. left. reflexivity.
+  - unfold lk_post. split; [exact G|]. split; [apply wstep_refl|]. apply FREE. left. reflexivity.
+  - apply EMPTY; [reflexivity|discriminate].
+  - set (n := N.min (N.pos pc) (len (x :: sb))).
+    destruct (consume_stream_views (rsp r) n (proj1 G)) as (V1 & V2 & (_ & V3 & _) & _).
+    unfold lk_post. cbn [rsp rlock]. split; [apply (lgood_transfer (rsp r)); [exact G|exact V1|exact V3|rewrite V2; apply G]|].
+    split; [apply wstep_refl|]. apply FREE. right. discriminate.
+  - apply EMPTY; [reflexivity|discriminate].
+  - unfold lk_post. split; [exact G|]. split; [apply wstep_refl|]. apply FREE. right. discriminate.
+Qed.
+
+Definition ai_lock (w : world) (x : res ((N * bytes + N) * rstate)) : Prop :=
+  match x with
+  | Ok (y, r') w' => lgood (rsp r') /\ wstep w w' /\
+      match y with inl _ => rlock r' = false | inr _ => rlock r' = false \/ ~ no_fault (wscript w) end
+  | Halt _ _ => True
+  end.
+
+Lemma ai_lock_pre w w1 x : wstep w w1 -> ai_lock w1 x -> ai_lock w x.
+Proof.
+  intros S. destruct x as [[y r'] w'|o w']; [|intros _; exact I]. unfold ai_lock. intros (A & B & C).
+  split; [exact A|]. split; [eapply wstep_trans; eassumption|].
+  destruct y as [u|k]; [exact C|]. destruct C as [C|C]; [left; exact C|right; eapply nf_back; eassumption].
+Qed.
+
+Lemma await_input_lock : forall fuel dest r w, lgood (rsp r) -> world_ok w -> lk_pre dest r ->
+  ai_lock w (await_input maxc fuel dest r w).
+Proof.
+  induction fuel as [|f IH]; intros dest r w G Wok Hpre; [exact I|]. cbn [await_input].
+  pose proof (poll_input_lock (io_fuel w (len (buffer (rsp r)))) dest r w G Wok Hpre ltac:(rewrite io_fuel_eq; lia)) as PI.
+  destruct (poll_input maxc (io_fuel w (len (buffer (rsp r)))) dest r w) as [[p r1] w1].
+  destruct PI as (G1 & S1 & L1). destruct p as [y| |].
+  - unfold ai_lock. split; [exact G1|]. split; [exact S1|]. destruct y; exact L1.
+  - unfold on_wake. cbn [andb]. apply (ai_lock_pre w (w_bump w1)); [eapply wstep_trans; [exact S1|apply wstep_bump]|].
+    apply IH; [exact G1| |exact L1]. apply (ws_ok _ _ (wstep_bump w1)), (ws_ok _ _ S1 Wok).
+  - unfold on_block. destruct (negb (stop_at w1 =? 0) && negb (stopped w1)); [|exact I].
+    apply (ai_lock_pre w (w_stop w1)); [eapply wstep_trans; [exact S1|apply wstep_stop]|].
+    apply IH; [exact G1| |exact L1]. apply (ws_ok _ _ (wstep_stop w1)), (ws_ok _ _ S1 Wok).
+Qed.
+
+(* on a transport without write faults an awaited read that starts with the lock released ends with it released *)
+Corollary await_input_unlocked fuel dest r w x r' w' : lgood (rsp r) -> world_ok w -> rlock r = false ->
+  no_fault (wscript w) -> await_input maxc fuel dest r w = Ok (x, r') w' -> rlock r' = false.
+Proof.
+  intros G Wok Hl Hnf E. pose proof (await_input_lock fuel dest r w G Wok (or_introl Hl)) as H. rewrite E in H.
+  destruct H as (_ & _ & H). destruct x as [u|k]; [exact H|]. destruct H as [H|H]; [exact H|contradiction].
+Qed.
+
 (* ---- Request::writeable ---- *)
 Lemma last_opt_facts role l : last_opt role = Some l -> is_input_stream l = true /\ In l (role_input_streams role).
 Proof.
@@ -1061,13 +1265,15 @@ Qed.
 Lemma do_writeable_ok r w : rgood r -> world_ok w ->
   match do_writeable maxc r w with
   | Ok (e, r') w' => hkeep r w r' w' /\ stream (rsp r') = last_opt (r_role (sreq (rsp r))) /\
-                     match e with Some k => 1 <= k <= 7 | None => True end
+                     match e with Some k => 1 <= k <= 7 | None => True end /\
+                     (rlock r = false ->
+                      match e with None => rlock r' = false | Some _ => rlock r' = false \/ ~ no_fault (wscript w) end)
   | Halt o w' => wstep w w' /\ okhalt w o
   end.
 Proof.
   intros G Wok. unfold do_writeable. pose proof (proj2 G) as W. unfold wr_inv, wr_inv_at in W.
   destruct (rwriteable r) eqn:Ewr.
-  { split; [apply hkeep_refl; exact G|]. split; [exact W|exact I]. }
+  { split; [apply hkeep_refl; exact G|]. split; [exact W|]. split; [exact I|intros H; exact H]. }
   destruct W as (x & Ex & Hx).
   change (match rev (role_input_streams (r_role (sreq (rsp r)))) with x :: _ => Some x | [] => None end)
     with (last_opt (r_role (sreq (rsp r)))).
@@ -1085,11 +1291,13 @@ Proof.
   assert (H1 : hkeep r w r1 w).
   { split; [exact G1|]. split; [apply wstep_refl|]. split; [exact V2|]. split; [exact V4|]. unfold rsize. subst r1. cbn [rsp]. lia. }
   pose proof (await_input_io None r1 w G1 Wok) as AI.
+  pose proof (fun H : rlock r = false => await_input_lock (io_fuel w 0) None r1 w (pgood_lgood _ (proj1 G1)) Wok (or_introl H)) as AL.
   destruct (await_input maxc (io_fuel w 0) None r1 w) as [[[[n b]|k] r2] w2|o w2].
-  - destruct (ckeep_hkeep _ _ _ _ _ AI) as [H2 S2]. split; [eapply hkeep_trans; eassumption|]. split; [|exact I].
-    rewrite S2. exact V3.
+  - destruct (ckeep_hkeep _ _ _ _ _ AI) as [H2 S2]. split; [eapply hkeep_trans; eassumption|]. split; [|split; [exact I|]].
+    + rewrite S2. exact V3.
+    + intros H. apply (AL H).
   - destruct AI as [AI Hk]. destruct (ckeep_hkeep _ _ _ _ _ AI) as [H2 S2]. split; [eapply hkeep_trans; eassumption|].
-    split; [rewrite S2; exact V3|exact Hk].
+    split; [rewrite S2; exact V3|split; [exact Hk|]]. intros H. apply (AL H).
   - exact AI.
 Qed.
 
@@ -1099,7 +1307,7 @@ Definition pck (p : sp) (w : world) (extra : nat) (p' : sp) (w' : world) : Prop 
 
 Lemma sparse_pck p w new dest p' s : pgood p -> sparse_keeps p new dest p' s -> pck p w (length new) p' w.
 Proof.
-  intros G (K1 & K2 & K3 & K4 & K5 & K6 & K7).
+  intros G (K1 & K2 & K3 & K4 & K5 & K6 & K7 & _).
   split; [apply (pgood_transfer p); try assumption; repeat split; assumption|].
   split; [apply wstep_refl|]. split; [repeat split; assumption|]. unfold psize. unfold len in K7. lia.
 Qed.
@@ -1362,21 +1570,25 @@ Qed.
 (* ---- handler scripts ---- *)
 Lemma read_all_ok : forall fuel acc r w, rgood r -> world_ok w -> (rsize r + nb w + 2 <= fuel)%nat ->
   match read_all maxc fuel acc r w with
-  | Ok (_, r') w' => hkeep r w r' w' /\ stream (rsp r') = stream (rsp r)
+  | Ok (_, r') w' => hkeep r w r' w' /\ stream (rsp r') = stream (rsp r) /\
+                     (rlock r = false -> rlock r' = false \/ ~ no_fault (wscript w))
   | Halt o w' => wstep w w' /\ okhalt w o
   end.
 Proof.
   induction fuel as [|f IH]; intros acc r w G Wok Hf; [lia|]. cbn [read_all].
   pose proof (await_input_io (Some 64) r w G Wok) as AI.
+  pose proof (fun H : rlock r = false => await_input_lock (io_fuel w 0) (Some 64) r w (pgood_lgood _ (proj1 G)) Wok (or_introl H)) as AL.
   destruct (await_input maxc (io_fuel w 0) (Some 64) r w) as [[[[n b]|k] r1] w1|o w1].
   - destruct (ckeep_hkeep _ _ _ _ _ AI) as [H1 S1].
-    destruct (N.eqb_spec n 0) as [E0|E0]; [split; [exact H1|exact S1]|].
+    destruct (N.eqb_spec n 0) as [E0|E0]; [split; [exact H1|split; [exact S1|intros H; left; apply (AL H)]]|].
     destruct AI as (A1 & A2 & A3 & A4). cbn [dlv] in A4.
     specialize (IH (acc ++ b) r1 w1 A1 (ws_ok _ _ A2 Wok) ltac:(lia)).
     destruct (read_all maxc f (acc ++ b) r1 w1) as [[[k acc'] r2] w2|o w2].
-    + destruct IH as [I1 I2]. split; [eapply hkeep_trans; eassumption|congruence].
+    + destruct IH as (I1 & I2 & I3). split; [eapply hkeep_trans; eassumption|]. split; [congruence|].
+      intros H. destruct (I3 (proj2 (proj2 (AL H)))) as [I|I]; [left; exact I|right; eapply nf_back; eassumption].
     + destruct IH as [I1 I2]. split; [eapply wstep_trans; eassumption|eapply okhalt_step; eassumption].
-  - destruct AI as [AI _]. apply (ckeep_hkeep _ _ _ _ _ AI).
+  - destruct AI as [AI _]. destruct (ckeep_hkeep _ _ _ _ _ AI) as [H1 S1]. split; [exact H1|]. split; [exact S1|].
+    intros H. apply (AL H).
   - exact AI.
 Qed.
 
@@ -1403,23 +1615,88 @@ Inductive script_ok (strict : bool) (role : N) : option N -> list N -> Prop :=
 | SO_readq cur n rest : script_ok strict role cur rest -> script_ok strict role cur (10 :: n :: rest)
 | SO_poll cur n rest : script_ok strict role cur rest -> script_ok strict role cur (11 :: n :: rest).
 
+(* handlers that never ABANDON a pending read: every opcode of [script_ok] except 11 (a read future polled once and
+   dropped).  Request::poll_output may return Pending after it has written only PART of a management reply, with
+   Request.lock held; a handler that drops the read future at that point and then writes or flushes through a
+   StreamWriter waits for that lock for ever (ex2p_abandoned_read_deadlocks in Async/PeerProofs2.v; known finding F6). *)
+Inductive no_abandoned_read : list N -> Prop :=
+| NA_nil : no_abandoned_read []
+| NA_read n rest : no_abandoned_read rest -> no_abandoned_read (1 :: n :: rest)
+| NA_read_all rest : no_abandoned_read rest -> no_abandoned_read (2 :: rest)
+| NA_fill k rest : no_abandoned_read rest -> no_abandoned_read (3 :: k :: rest)
+| NA_set s rest : no_abandoned_read rest -> no_abandoned_read (4 :: s :: rest)
+| NA_writeable rest : no_abandoned_read rest -> no_abandoned_read (5 :: rest)
+| NA_write s n rest : no_abandoned_read (drop n rest) -> no_abandoned_read (6 :: s :: n :: rest)
+| NA_flush s rest : no_abandoned_read rest -> no_abandoned_read (7 :: s :: rest)
+| NA_exit d c rest : no_abandoned_read (8 :: d :: c :: rest)
+| NA_fail k rest : no_abandoned_read (9 :: k :: rest)
+| NA_readq n rest : no_abandoned_read rest -> no_abandoned_read (10 :: n :: rest).
+
+(* handlers that propagate I/O errors: every read is `read(..).await?` (op 10), writes return their error (op 6
+   does), no op that observes an error and goes on (1, 2, 3, 5), no abandoned read (11) *)
+Inductive prop_script : list N -> Prop :=
+| PS_nil : prop_script []
+| PS_set s rest : prop_script rest -> prop_script (4 :: s :: rest)
+| PS_write s n rest : prop_script (drop n rest) -> prop_script (6 :: s :: n :: rest)
+| PS_flush s rest : prop_script rest -> prop_script (7 :: s :: rest)
+| PS_exit d c rest : prop_script (8 :: d :: c :: rest)
+| PS_fail k rest : prop_script (9 :: k :: rest)
+| PS_readq n rest : prop_script rest -> prop_script (10 :: n :: rest).
+
+(* Three ways to look at a handler with respect to the request's output lock:
+   LAny   — any well-formed script: a StreamWriter op (6 with data, 7) may find Request.lock held and wait for ever;
+   LAwait — it awaits the reads it starts and the transport has no write fault left: the lock is free between ops;
+   LProp  — it propagates I/O errors: the lock is free between ops whatever the transport does. *)
+Inductive lmode := LAny | LAwait | LProp.
+
+Definition lm_script (m : lmode) (s : list N) : Prop :=
+  match m with LAny => True | LAwait => no_abandoned_read s | LProp => prop_script s end.
+Definition lm_pre (m : lmode) (r : rstate) (w : world) : Prop :=
+  match m with LAny => True | LAwait => rlock r = false /\ no_fault (wscript w) | LProp => rlock r = false end.
+
+Lemma lm_script_nil m : lm_script m [].
+Proof. destruct m; [exact I|constructor|constructor]. Qed.
+
+(* the lock is certainly free after the step *)
+Lemma lm_pre_free m r w r1 w1 : lm_pre m r w -> wstep w w1 -> (rlock r = false -> rlock r1 = false) -> lm_pre m r1 w1.
+Proof.
+  destruct m; cbn [lm_pre]; [intros; exact I| |].
+  - intros [Hl Hn] S H. split; [apply H; exact Hl|apply (ws_nf _ _ S Hn)].
+  - intros Hl S H. apply H. exact Hl.
+Qed.
+
+(* the step reported an error and the handler goes on: the lock is free unless a write fault occurred *)
+Lemma lm_pre_soft m r w r1 w1 : m <> LProp -> lm_pre m r w -> wstep w w1 ->
+  (rlock r = false -> rlock r1 = false \/ ~ no_fault (wscript w)) -> lm_pre m r1 w1.
+Proof.
+  destruct m; cbn [lm_pre]; [intros; exact I| |intros H; contradiction].
+  intros _ [Hl Hn] S H. split; [|apply (ws_nf _ _ S Hn)]. destruct (H Hl) as [H1|H1]; [exact H1|contradiction].
+Qed.
+
 Definition okhalt70 (strict : bool) (w : world) (o : outcome) : Prop :=
   okhalt w o \/ (strict = false /\ o = OPanic 70).
 
-Definition hpost (strict : bool) (r : rstate) (w : world) (x : res ((N * N + N) * rstate)) : Prop :=
+(* ... or, if nothing is known about the lock, the task waits for it *)
+Definition okhaltm (m : lmode) (strict : bool) (w : world) (o : outcome) : Prop :=
+  okhalt70 strict w o \/ (m = LAny /\ o = ODeadlock).
+
+Definition hpost (m : lmode) (strict : bool) (r : rstate) (w : world) (x : res ((N * N + N) * rstate)) : Prop :=
   match x with
   | Ok (st, r') w' => hkeep r w r' w' /\ match st with inl (d, _) => In d EXITSTATUS_VALUES | inr _ => True end
-  | Halt o w' => wstep w w' /\ okhalt70 strict w o
+  | Halt o w' => wstep w w' /\ okhaltm m strict w o
   end.
 
 Lemma okhalt70_step strict w w' o : wstep w w' -> okhalt70 strict w' o -> okhalt70 strict w o.
 Proof. intros S [H|H]; [left; eapply okhalt_step; eassumption|right; exact H]. Qed.
 
-Lemma hpost_cont strict r w r1 w1 x : hkeep r w r1 w1 -> hpost strict r1 w1 x -> hpost strict r w x.
+Lemma okhaltm_step m strict w w' o : wstep w w' -> okhaltm m strict w' o -> okhaltm m strict w o.
+Proof. intros S [H|H]; [left; eapply okhalt70_step; eassumption|right; exact H]. Qed.
+
+Lemma hpost_cont m strict r w r1 w1 x : hkeep r w r1 w1 -> hpost m strict r1 w1 x -> hpost m strict r w x.
 Proof.
   intros H. unfold hpost. destruct x as [[st r2] w2|o w2].
   - intros [A B]. split; [eapply hkeep_trans; eassumption|exact B].
-  - intros [A B]. destruct H as (_ & S & _). split; [eapply wstep_trans; eassumption|eapply okhalt70_step; eassumption].
+  - intros [A B]. destruct H as (_ & S & _). split; [eapply wstep_trans; eassumption|eapply okhaltm_step; eassumption].
 Qed.
 
 Lemma exit_complete_in : In EXIT_Complete EXITSTATUS_VALUES.
@@ -1431,33 +1708,40 @@ Proof.
   destruct (is_input_stream s); [reflexivity|]. cbn [negb orb]. discriminate.
 Qed.
 
-Lemma run_handler_ok strict role cur script : script_ok strict role cur script ->
+Lemma run_handler_ok m strict role cur script : script_ok strict role cur script -> lm_script m script ->
   forall f r w, (length script < f)%nat -> rgood r -> world_ok w ->
-  r_role (sreq (rsp r)) = role -> stream (rsp r) = cur ->
-  hpost strict r w (run_handler maxc f script r w).
+  r_role (sreq (rsp r)) = role -> stream (rsp r) = cur -> lm_pre m r w ->
+  hpost m strict r w (run_handler maxc f script r w).
 Proof.
   induction 1 as [cur|cur n rest H IH|cur rest H IH|cur k rest H IH|cur s rest Hacc H IH|cur rest H IH
                   |cur s n rest H IH|cur s rest H IH|cur d c rest Hd|cur k rest|cur n rest H IH|cur n rest H IH];
-    intros f r w Hf G Wok Hrole Hcur; (destruct f as [|f]; [cbn [length] in Hf; lia|]); cbn [length] in Hf; cbn [run_handler].
+    intros Hm f r w Hf G Wok Hrole Hcur Hpre; (destruct f as [|f]; [cbn [length] in Hf; lia|]); cbn [length] in Hf; cbn [run_handler].
   - (* end of script *)
     split; [apply hkeep_world with (w' := w); [apply hkeep_refl; exact G|apply wstep_ev]|apply exit_complete_in].
   - (* 1 n *)
+    assert (Hm' : lm_script m rest /\ m <> LProp) by (destruct m; [split; [exact I|discriminate]|split; [inversion Hm; assumption|discriminate]|inversion Hm]).
+    destruct Hm' as [Hmr Hnp].
     pose proof (await_input_io (Some n) r w G Wok) as AI.
+    pose proof (fun Hl : rlock r = false => await_input_lock (io_fuel w 0) (Some n) r w (pgood_lgood _ (proj1 G)) Wok (or_introl Hl)) as AL.
     destruct (await_input maxc (io_fuel w 0) (Some n) r w) as [[[[c b]|k] r1] w1|o w1].
     + destruct (ckeep_hkeep _ _ _ _ _ AI) as [H1 S1].
       set (w2 := w_ev (w_ev w1 [1; 1; c]) b).
       assert (H2 : hkeep r w r1 w2).
       { apply hkeep_world with (w' := w1); [exact H1|]. eapply wstep_trans; apply wstep_ev. }
-      apply (hpost_cont _ _ _ _ _ _ H2). pose proof H2 as (G2 & S2 & Q2 & _).
-      apply IH; [lia|exact G2|exact (ws_ok _ _ S2 Wok)|rewrite Q2; exact Hrole|congruence].
+      apply (hpost_cont _ _ _ _ _ _ _ H2). pose proof H2 as (G2 & S2 & Q2 & _).
+      apply IH; [exact Hmr|lia|exact G2|exact (ws_ok _ _ S2 Wok)|rewrite Q2; exact Hrole|congruence|].
+      apply (lm_pre_free m r w); [exact Hpre|exact S2|]. intros Hl. apply (AL Hl).
     + destruct AI as [AI _]. destruct (ckeep_hkeep _ _ _ _ _ AI) as [H1 S1].
       set (w2 := w_ev (w_ev w1 [1; 0; k]) []).
       assert (H2 : hkeep r w r1 w2).
       { apply hkeep_world with (w' := w1); [exact H1|]. eapply wstep_trans; apply wstep_ev. }
-      apply (hpost_cont _ _ _ _ _ _ H2). pose proof H2 as (G2 & S2 & Q2 & _).
-      apply IH; [lia|exact G2|exact (ws_ok _ _ S2 Wok)|rewrite Q2; exact Hrole|congruence].
-    + destruct AI as [A1 A2]. split; [exact A1|left; exact A2].
+      apply (hpost_cont _ _ _ _ _ _ _ H2). pose proof H2 as (G2 & S2 & Q2 & _).
+      apply IH; [exact Hmr|lia|exact G2|exact (ws_ok _ _ S2 Wok)|rewrite Q2; exact Hrole|congruence|].
+      apply (lm_pre_soft m r w); [exact Hnp|exact Hpre|exact S2|]. intros Hl. apply (AL Hl).
+    + destruct AI as [A1 A2]. split; [exact A1|left; left; exact A2].
   - (* 2 *)
+    assert (Hm' : lm_script m rest /\ m <> LProp) by (destruct m; [split; [exact I|discriminate]|split; [inversion Hm; assumption|discriminate]|inversion Hm]).
+    destruct Hm' as [Hmr Hnp].
     set (fu := (_ + length (buffer (rsp r)) + 4)%nat).
     assert (Efu : fu = (nb w + length (buffer (rsp r)) + 4)%nat) by reflexivity.
     pose proof (read_all_ok fu [] r w G Wok) as RA.
@@ -1465,14 +1749,18 @@ Proof.
     { pose proof (psize_bound (rsp r) (proj1 (proj1 G))). unfold rsize. lia. }
     specialize (RA Hfu). clearbody fu.
     destruct (read_all maxc fu [] r w) as [[[k acc] r1] w1|o w1].
-    + destruct RA as [H1 S1]. set (w2 := w_ev (w_ev w1 [2; k]) acc).
+    + destruct RA as (H1 & S1 & L1). set (w2 := w_ev (w_ev w1 [2; k]) acc).
       assert (H2 : hkeep r w r1 w2).
       { apply hkeep_world with (w' := w1); [exact H1|]. eapply wstep_trans; apply wstep_ev. }
-      apply (hpost_cont _ _ _ _ _ _ H2). pose proof H2 as (G2 & S2 & Q2 & _).
-      apply IH; [lia|exact G2|exact (ws_ok _ _ S2 Wok)|rewrite Q2; exact Hrole|congruence].
-    + destruct RA as [A1 A2]. split; [exact A1|left; exact A2].
+      apply (hpost_cont _ _ _ _ _ _ _ H2). pose proof H2 as (G2 & S2 & Q2 & _).
+      apply IH; [exact Hmr|lia|exact G2|exact (ws_ok _ _ S2 Wok)|rewrite Q2; exact Hrole|congruence|].
+      apply (lm_pre_soft m r w); [exact Hnp|exact Hpre|exact S2|exact L1].
+    + destruct RA as [A1 A2]. split; [exact A1|left; left; exact A2].
   - (* 3 k *)
+    assert (Hm' : lm_script m rest /\ m <> LProp) by (destruct m; [split; [exact I|discriminate]|split; [inversion Hm; assumption|discriminate]|inversion Hm]).
+    destruct Hm' as [Hmr Hnp].
     pose proof (await_input_io None r w G Wok) as AI.
+    pose proof (fun Hl : rlock r = false => await_input_lock (io_fuel w 0) None r w (pgood_lgood _ (proj1 G)) Wok (or_introl Hl)) as AL.
     destruct (await_input maxc (io_fuel w 0) None r w) as [[[[c b]|e] r1] w1|o w1].
     + destruct (ckeep_hkeep _ _ _ _ _ AI) as [H1 S1].
       set (cc := N.min k (len (stream_buffer (rsp r1)))).
@@ -1486,21 +1774,24 @@ Proof.
         split; [apply (rgood_transfer r1); try assumption; try reflexivity; rewrite V2; apply G1|].
         split; [apply wstep_refl|]. destruct V3 as (K1 & K2 & K3). split; [exact K1|]. split; [exact K3|].
         unfold rsize. subst r2. cbn [rsp]. lia. }
-      apply (hpost_cont _ _ _ _ _ _ H2). pose proof H2 as (G2 & S2 & Q2 & _).
-      apply IH; [lia|exact G2|exact (ws_ok _ _ S2 Wok)|rewrite Q2; exact Hrole|].
-      subst r2. cbn [rsp]. destruct V3 as (_ & K2 & _). congruence.
+      apply (hpost_cont _ _ _ _ _ _ _ H2). pose proof H2 as (G2 & S2 & Q2 & _).
+      apply IH; [exact Hmr|lia|exact G2|exact (ws_ok _ _ S2 Wok)|rewrite Q2; exact Hrole| |].
+      * subst r2. cbn [rsp]. destruct V3 as (_ & K2 & _). congruence.
+      * apply (lm_pre_free m r w); [exact Hpre|exact S2|]. intros Hl. subst r2. cbn [rlock]. apply (AL Hl).
     + destruct AI as [AI _]. destruct (ckeep_hkeep _ _ _ _ _ AI) as [H1 S1].
       set (w2 := w_ev (w_ev w1 [3; 0; e]) []).
       assert (H2 : hkeep r w r1 w2).
       { apply hkeep_world with (w' := w1); [exact H1|]. eapply wstep_trans; apply wstep_ev. }
-      apply (hpost_cont _ _ _ _ _ _ H2). pose proof H2 as (G2 & S2 & Q2 & _).
-      apply IH; [lia|exact G2|exact (ws_ok _ _ S2 Wok)|rewrite Q2; exact Hrole|congruence].
-    + destruct AI as [A1 A2]. split; [exact A1|left; exact A2].
+      apply (hpost_cont _ _ _ _ _ _ _ H2). pose proof H2 as (G2 & S2 & Q2 & _).
+      apply IH; [exact Hmr|lia|exact G2|exact (ws_ok _ _ S2 Wok)|rewrite Q2; exact Hrole|congruence|].
+      apply (lm_pre_soft m r w); [exact Hnp|exact Hpre|exact S2|]. intros Hl. apply (AL Hl).
+    + destruct AI as [A1 A2]. split; [exact A1|left; left; exact A2].
   - (* 4 s *)
-    assert (BAD : strict = false -> hpost strict r w (Halt (OPanic 70) w)).
-    { intros Es. split; [apply wstep_refl|right; split; [exact Es|reflexivity]]. }
+    assert (Hmr : lm_script m rest) by (destruct m; [exact I|inversion Hm; assumption|inversion Hm; assumption]).
+    assert (BAD : strict = false -> hpost m strict r w (Halt (OPanic 70) w)).
+    { intros Es. split; [apply wstep_refl|left; right; split; [exact Es|reflexivity]]. }
     assert (GOOD : forall p', set_stream (rsp r) (Some s) = SetOk p' ->
-              hpost strict r w (run_handler maxc f rest (mkR p' (rwriteable r) (rlock r) (raborted r)) (w_ev w [4; stream_code (stream p')]))).
+              hpost m strict r w (run_handler maxc f rest (mkR p' (rwriteable r) (rlock r) (raborted r)) (w_ev w [4; stream_code (stream p')]))).
     { intros p' E. pose proof (set_stream_ok_accepted _ _ _ E) as A. rewrite Hrole, Hcur in A.
       destruct (set_stream_views (rsp r) (Some s) p' (proj1 G) (accepts_input _ _ _ A) E) as (V1 & V2 & V3 & V4 & V5 & _).
       set (r2 := mkR p' (rwriteable r) (rlock r) (raborted r)).
@@ -1512,29 +1803,41 @@ Proof.
       assert (H2 : hkeep r w r2 (w_ev w [4; stream_code (stream p')])).
       { apply hkeep_world with (w' := w); [|apply wstep_ev]. split; [exact G2|]. split; [apply wstep_refl|].
         split; [exact V2|]. split; [exact V4|]. unfold rsize. subst r2. cbn [rsp]. lia. }
-      apply (hpost_cont _ _ _ _ _ _ H2). pose proof H2 as (_ & S2 & _).
-      apply IH; [lia|exact G2|exact (ws_ok _ _ S2 Wok)|subst r2; cbn [rsp]; rewrite V2; exact Hrole|exact V3]. }
+      apply (hpost_cont _ _ _ _ _ _ _ H2). pose proof H2 as (_ & S2 & _).
+      apply IH; [exact Hmr|lia|exact G2|exact (ws_ok _ _ S2 Wok)|subst r2; cbn [rsp]; rewrite V2; exact Hrole|exact V3|].
+      apply (lm_pre_free m r w); [exact Hpre|exact S2|intros Hl; exact Hl]. }
     destruct strict.
     + specialize (Hacc eq_refl). rewrite <- Hrole, <- Hcur in Hacc.
       destruct (set_stream_accepted _ _ Hacc) as (p' & E). rewrite E. apply GOOD. exact E.
     + destruct (set_stream (rsp r) (Some s)) as [p'| |] eqn:E; [apply GOOD; reflexivity|apply BAD; reflexivity|apply BAD; reflexivity].
   - (* 5 *)
+    assert (Hm' : lm_script m rest /\ m <> LProp) by (destruct m; [split; [exact I|discriminate]|split; [inversion Hm; assumption|discriminate]|inversion Hm]).
+    destruct Hm' as [Hmr Hnp].
     pose proof (do_writeable_ok r w G Wok) as DW.
     destruct (do_writeable maxc r w) as [[e r1] w1|o w1].
-    + destruct DW as (H1 & S1 & _).
+    + destruct DW as (H1 & S1 & _ & L1).
       set (w2 := w_ev w1 [5; match e with None => 0 | Some k => k end; if rwriteable r1 then 1 else 0; stream_code (stream (rsp r1))]).
       assert (H2 : hkeep r w r1 w2) by (apply hkeep_world with (w' := w1); [exact H1|apply wstep_ev]).
-      apply (hpost_cont _ _ _ _ _ _ H2). pose proof H2 as (G2 & S2 & Q2 & _).
-      apply IH; [lia|exact G2|exact (ws_ok _ _ S2 Wok)|rewrite Q2; exact Hrole|rewrite S1, Hrole; reflexivity].
-    + destruct DW as [A1 A2]. split; [exact A1|left; exact A2].
+      apply (hpost_cont _ _ _ _ _ _ _ H2). pose proof H2 as (G2 & S2 & Q2 & _).
+      apply IH; [exact Hmr|lia|exact G2|exact (ws_ok _ _ S2 Wok)|rewrite Q2; exact Hrole|rewrite S1, Hrole; reflexivity|].
+      apply (lm_pre_soft m r w); [exact Hnp|exact Hpre|exact S2|]. intros Hl. specialize (L1 Hl).
+      destruct e; [exact L1|left; exact L1].
+    + destruct DW as [A1 A2]. split; [exact A1|left; left; exact A2].
   - (* 6 s n data *)
+    assert (Hmr : lm_script m (drop n rest)) by (destruct m; [exact I|inversion Hm; assumption|inversion Hm; assumption]).
     assert (Hlen : (length (drop n rest) <= length rest)%nat).
     { pose proof (len_drop n rest) as L. unfold len in L. lia. }
+    assert (FREE : rlock r = true -> m = LAny).
+    { intros Hl. destruct m; [reflexivity|destruct Hpre as [Hp _]; congruence|cbn [lm_pre] in Hpre; congruence]. }
     destruct (negb (rwriteable r)).
     + assert (H2 : hkeep r w r (w_ev w [6; 99])) by (apply hkeep_world with (w' := w); [apply hkeep_refl; exact G|apply wstep_ev]).
-      apply (hpost_cont _ _ _ _ _ _ H2). pose proof H2 as (_ & S2 & _).
-      apply IH; [lia|exact G|exact (ws_ok _ _ S2 Wok)|exact Hrole|exact Hcur].
-    + pose proof (writer_write_all_ok (N.to_nat (n / 65535) + 2) s (r_id (sreq (rsp r))) (take n rest) w ltac:(lia)
+      apply (hpost_cont _ _ _ _ _ _ _ H2). pose proof H2 as (_ & S2 & _).
+      apply IH; [exact Hmr|lia|exact G|exact (ws_ok _ _ S2 Wok)|exact Hrole|exact Hcur|].
+      apply (lm_pre_free m r w); [exact Hpre|exact S2|intros Hl; exact Hl].
+    + destruct (rlock r && negb (len (take n rest) =? 0)) eqn:Elk.
+      { (* the writer finds Request.lock held *)
+        apply andb_true_iff in Elk. split; [apply wstep_refl|]. right. split; [apply FREE; apply Elk|reflexivity]. }
+      pose proof (writer_write_all_ok (N.to_nat (n / 65535) + 2) s (r_id (sreq (rsp r))) (take n rest) w ltac:(lia)
                     ltac:(rewrite len_take; lia)) as WW.
       destruct (writer_write_all (N.to_nat (n / 65535) + 2) s (r_id (sreq (rsp r))) (take n rest) w) as [[k|] w1|o w1];
         [| |contradiction].
@@ -1542,41 +1845,53 @@ Proof.
         eapply wstep_trans; [exact WW|apply wstep_ev].
       * assert (H2 : hkeep r w r (w_ev w1 [6; 0])).
         { apply hkeep_world with (w' := w); [apply hkeep_refl; exact G|]. eapply wstep_trans; [exact WW|apply wstep_ev]. }
-        apply (hpost_cont _ _ _ _ _ _ H2). pose proof H2 as (_ & S2 & _).
-        apply IH; [lia|exact G|exact (ws_ok _ _ S2 Wok)|exact Hrole|exact Hcur].
+        apply (hpost_cont _ _ _ _ _ _ _ H2). pose proof H2 as (_ & S2 & _).
+        apply IH; [exact Hmr|lia|exact G|exact (ws_ok _ _ S2 Wok)|exact Hrole|exact Hcur|].
+        apply (lm_pre_free m r w); [exact Hpre|exact S2|intros Hl; exact Hl].
   - (* 7 s *)
+    assert (Hmr : lm_script m rest) by (destruct m; [exact I|inversion Hm; assumption|inversion Hm; assumption]).
+    assert (FREE : rlock r = true -> m = LAny).
+    { intros Hl. destruct m; [reflexivity|destruct Hpre as [Hp _]; congruence|cbn [lm_pre] in Hpre; congruence]. }
     destruct (rwriteable r).
-    + assert (H2 : hkeep r w r (w_ev w [7; 0])) by (apply hkeep_world with (w' := w); [apply hkeep_refl; exact G|apply wstep_ev]).
-      apply (hpost_cont _ _ _ _ _ _ H2). pose proof H2 as (_ & S2 & _).
-      apply IH; [lia|exact G|exact (ws_ok _ _ S2 Wok)|exact Hrole|exact Hcur].
+    + destruct (rlock r) eqn:Elk.
+      { split; [apply wstep_refl|]. right. split; [apply FREE; reflexivity|reflexivity]. }
+      assert (H2 : hkeep r w r (w_ev w [7; 0])) by (apply hkeep_world with (w' := w); [apply hkeep_refl; exact G|apply wstep_ev]).
+      apply (hpost_cont _ _ _ _ _ _ _ H2). pose proof H2 as (_ & S2 & _).
+      apply IH; [exact Hmr|lia|exact G|exact (ws_ok _ _ S2 Wok)|exact Hrole|exact Hcur|].
+      apply (lm_pre_free m r w); [exact Hpre|exact S2|intros Hl; exact Elk].
     + assert (H2 : hkeep r w r (w_ev w [7; 99])) by (apply hkeep_world with (w' := w); [apply hkeep_refl; exact G|apply wstep_ev]).
-      apply (hpost_cont _ _ _ _ _ _ H2). pose proof H2 as (_ & S2 & _).
-      apply IH; [lia|exact G|exact (ws_ok _ _ S2 Wok)|exact Hrole|exact Hcur].
+      apply (hpost_cont _ _ _ _ _ _ _ H2). pose proof H2 as (_ & S2 & _).
+      apply IH; [exact Hmr|lia|exact G|exact (ws_ok _ _ S2 Wok)|exact Hrole|exact Hcur|].
+      apply (lm_pre_free m r w); [exact Hpre|exact S2|intros Hl; exact Hl].
   - (* 8 d c *)
     split; [apply hkeep_world with (w' := w); [apply hkeep_refl; exact G|apply wstep_ev]|exact Hd].
   - (* 9 k *)
     split; [apply hkeep_world with (w' := w); [apply hkeep_refl; exact G|apply wstep_ev]|exact I].
   - (* 10 n *)
+    assert (Hmr : lm_script m rest) by (destruct m; [exact I|inversion Hm; assumption|inversion Hm; assumption]).
     pose proof (await_input_io (Some n) r w G Wok) as AI.
+    pose proof (fun Hl : rlock r = false => await_input_lock (io_fuel w 0) (Some n) r w (pgood_lgood _ (proj1 G)) Wok (or_introl Hl)) as AL.
     destruct (await_input maxc (io_fuel w 0) (Some n) r w) as [[[[c b]|k] r1] w1|o w1].
     + destruct (ckeep_hkeep _ _ _ _ _ AI) as [H1 S1].
       set (w2 := w_ev (w_ev w1 [1; 1; c]) b).
       assert (H2 : hkeep r w r1 w2).
       { apply hkeep_world with (w' := w1); [exact H1|]. eapply wstep_trans; apply wstep_ev. }
-      apply (hpost_cont _ _ _ _ _ _ H2). pose proof H2 as (G2 & S2 & Q2 & _).
-      apply IH; [lia|exact G2|exact (ws_ok _ _ S2 Wok)|rewrite Q2; exact Hrole|congruence].
+      apply (hpost_cont _ _ _ _ _ _ _ H2). pose proof H2 as (G2 & S2 & Q2 & _).
+      apply IH; [exact Hmr|lia|exact G2|exact (ws_ok _ _ S2 Wok)|rewrite Q2; exact Hrole|congruence|].
+      apply (lm_pre_free m r w); [exact Hpre|exact S2|]. intros Hl. apply (AL Hl).
     + destruct AI as [AI _]. destruct (ckeep_hkeep _ _ _ _ _ AI) as [H1 S1].
       split; [|exact I]. apply hkeep_world with (w' := w1); [exact H1|]. eapply wstep_trans; apply wstep_ev.
-    + destruct AI as [A1 A2]. split; [exact A1|left; exact A2].
-  - (* 11 n: one poll, not awaited; whatever the result, the script continues *)
+    + destruct AI as [A1 A2]. split; [exact A1|left; left; exact A2].
+  - (* 11 n: one poll, not awaited; whatever the result, the script continues — possibly with the lock held *)
+    assert (Hm' : m = LAny) by (destruct m; [reflexivity|inversion Hm|inversion Hm]). subst m.
     pose proof (poll_input_ok (io_fuel w (len (buffer (rsp r)))) (Some n) r w G Wok ltac:(rewrite io_fuel_eq; lia)) as PI.
     assert (T : forall r1 w1 d e b, ckeep r w 0 r1 w1 d ->
-              hpost strict r w (run_handler maxc f rest r1 (w_ev (w_ev w1 e) b))).
+              hpost LAny strict r w (run_handler maxc f rest r1 (w_ev (w_ev w1 e) b))).
     { intros r1 w1 d e b C. destruct (ckeep_hkeep _ _ _ _ _ C) as [H1 S1].
       assert (H2 : hkeep r w r1 (w_ev (w_ev w1 e) b)).
       { apply hkeep_world with (w' := w1); [exact H1|]. eapply wstep_trans; apply wstep_ev. }
-      apply (hpost_cont _ _ _ _ _ _ H2). pose proof H2 as (G2 & S2 & Q2 & _).
-      apply IH; [lia|exact G2|exact (ws_ok _ _ S2 Wok)|rewrite Q2; exact Hrole|congruence]. }
+      apply (hpost_cont _ _ _ _ _ _ _ H2). pose proof H2 as (G2 & S2 & Q2 & _).
+      apply IH; [exact I|lia|exact G2|exact (ws_ok _ _ S2 Wok)|rewrite Q2; exact Hrole|congruence|exact I]. }
     destruct (poll_input maxc (io_fuel w (len (buffer (rsp r)))) (Some n) r w) as [[[[[c b]|k]| |] r1] w1].
     + eapply T. exact PI.
     + eapply T. exact (proj1 PI).
@@ -1716,21 +2031,22 @@ Qed.
 Definition scripts_ok (strict : bool) (scripts : list (list N)) : Prop :=
   Forall (fun s => forall role, script_ok strict role (next_input_stream role None) s) scripts.
 
-Lemma run_loop_ok strict scripts : scripts_ok strict scripts ->
+Lemma run_loop_ok m strict scripts : scripts_ok strict scripts -> Forall (lm_script m) scripts ->
   forall fuel p served w, parser_ok p -> st p = Header -> world_ok w -> (length (held p) + nb w + 2 <= fuel)%nat ->
+  (m = LAwait -> no_fault (wscript w)) ->
   wstep w (snd (run_loop norm maxc fuel p scripts served w)) /\
-  okhalt70 strict w (fst (run_loop norm maxc fuel p scripts served w)).
+  okhaltm m strict w (fst (run_loop norm maxc fuel p scripts served w)).
 Proof.
-  intros Hscripts. induction fuel as [|f IH]; intros p served w Hp Eh Wok Hf; [lia|]. cbn [run_loop].
-  assert (RET : forall w', wstep w w' -> wstep w (snd (ORet, w')) /\ okhalt70 strict w (fst (ORet, w'))).
-  { intros w' S. cbn [fst snd]. split; [exact S|left; left; reflexivity]. }
+  intros Hscripts Hmodes. induction fuel as [|f IH]; intros p served w Hp Eh Wok Hf Hnf; [lia|]. cbn [run_loop].
+  assert (RET : forall w', wstep w w' -> wstep w (snd (ORet, w')) /\ okhaltm m strict w (fst (ORet, w'))).
+  { intros w' S. cbn [fst snd]. split; [exact S|left; left; left; reflexivity]. }
   destruct (stopped w); [apply RET; apply wstep_refl|].
   pose proof (parse_request_ok (io_fuel w 0) p [] w Hp Wok ltac:(apply Forall_nil) ltac:(rewrite len_nil; lia)
                 ltac:(rewrite io_fuel_eq; lia)) as PR.
   unfold preq_post in PR.
   destruct (parse_request norm maxc (io_fuel w 0) p [] w) as [[s0|k] w1|o w1].
   2:{ apply RET. exact PR. }
-  2:{ cbn [fst snd]. destruct PR as [P1 P2]. split; [exact P1|left; exact P2]. }
+  2:{ cbn [fst snd]. destruct PR as [P1 P2]. split; [exact P1|left; left; exact P2]. }
   destruct PR as (G0 & S1 & B0 & St0 & _ & Hlt). specialize (Hlt Eh). cbn [length] in Hlt.
   set (role := r_role (sreq s0)) in *.
   set (r0 := mkR s0 (len (role_input_streams role) <=? 1) false false).
@@ -1743,12 +2059,16 @@ Proof.
   assert (Hscript : script_ok strict role (next_input_stream role None) script).
   { subst script. apply (Forall_nth_default (fun s => forall role, script_ok strict role (next_input_stream role None) s));
       [exact Hscripts|]. apply Forall_last; [exact Hscripts|]. intros role'. constructor. }
-  pose proof (run_handler_ok strict role _ script Hscript (length script + 2) r0 w2 ltac:(lia) GR0
-                (ws_ok _ _ S2 (ws_ok _ _ S1 Wok)) eq_refl St0) as RH.
+  assert (Hmscript : lm_script m script).
+  { subst script. apply Forall_nth_default; [exact Hmodes|]. apply Forall_last; [exact Hmodes|]. apply lm_script_nil. }
   assert (S02 : wstep w w2) by (eapply wstep_trans; eassumption).
+  assert (Hpre0 : lm_pre m r0 w2).
+  { destruct m; cbn [lm_pre]; [exact I|split; [reflexivity|apply (ws_nf _ _ S02), Hnf; reflexivity]|reflexivity]. }
+  pose proof (run_handler_ok m strict role _ script Hscript Hmscript (length script + 2) r0 w2 ltac:(lia) GR0
+                (ws_ok _ _ S2 (ws_ok _ _ S1 Wok)) eq_refl St0 Hpre0) as RH.
   unfold hpost in RH.
   destruct (run_handler maxc (length script + 2) script r0 w2) as [[st r1] w3|o w3].
-  2:{ cbn [fst snd]. destruct RH as [R1 R2]. split; [eapply wstep_trans; eassumption|eapply okhalt70_step; eassumption]. }
+  2:{ cbn [fst snd]. destruct RH as [R1 R2]. split; [eapply wstep_trans; eassumption|eapply okhaltm_step; eassumption]. }
   destruct RH as ((G1 & S3 & Q1 & Q2 & Z1) & Hst).
   assert (S03 : wstep w w3) by (eapply wstep_trans; eassumption).
   assert (CLOSE : forall d c, In d EXITSTATUS_VALUES ->
@@ -1757,7 +2077,7 @@ Proof.
                   | Ok (inl rp) w4 => run_loop norm maxc f rp scripts (S served) w4
                   | Ok (inr _) w4 => (ORet, w4)
                   end)) /\
-    okhalt70 strict w (fst (match do_close maxc r1 d c w3 with
+    okhaltm m strict w (fst (match do_close maxc r1 d c w3 with
                   | Halt o w4 => (o, w4)
                   | Ok (inl rp) w4 => run_loop norm maxc f rp scripts (S served) w4
                   | Ok (inr _) w4 => (ORet, w4)
@@ -1767,37 +2087,35 @@ Proof.
     - destruct DC as (C1 & C2 & C3 & C4).
       assert (Hf' : (length (held rp) + nb w4 + 2 <= f)%nat).
       { pose proof (ws_b _ _ S2). unfold rsize, psize in *. subst r0. cbn [rsp] in *. rewrite B0 in Z1. cbn [length] in Z1. lia. }
-      destruct (IH rp (S served) w4 C1 C2 (ws_ok _ _ C3 (ws_ok _ _ S03 Wok)) Hf') as [I1 I2].
       assert (S04 : wstep w w4) by (eapply wstep_trans; eassumption).
-      split; [eapply wstep_trans; eassumption|eapply okhalt70_step; eassumption].
+      destruct (IH rp (S served) w4 C1 C2 (ws_ok _ _ C3 (ws_ok _ _ S03 Wok)) Hf'
+                  ltac:(intros Em; apply (ws_nf _ _ S04), Hnf; exact Em)) as [I1 I2].
+      split; [eapply wstep_trans; eassumption|eapply okhaltm_step; eassumption].
     - apply RET. eapply wstep_trans; eassumption.
     - cbn [fst snd]. destruct DC as [D1 D2]. split; [eapply wstep_trans; eassumption|].
-      left. eapply okhalt_step; eassumption. }
+      left. left. eapply okhalt_step; eassumption. }
   destruct st as [[d c]|k].
   - apply CLOSE. exact Hst.
   - destruct ((k =? EK_Aborted) && raborted r1); [apply CLOSE; apply exit_complete_in|apply RET; exact S03].
 Qed.
 
+Lemma Forall_any (scripts : list (list N)) : Forall (lm_script LAny) scripts.
+Proof. apply Forall_forall. intros x _. exact I. Qed.
+
 (* ---- main theorems ---- *)
+(* Layer (i), C12/C08: for every read script, write script (faults included), segment table and gating and every
+   well-formed handler script the connection task ends by returning or by waiting — for the client, or (known findings
+   F5/F6) for its own output lock: it reaches no panic site and does not spin (no loop bound of the model is used up) *)
 Theorem run_loop_total scripts B w0 :
   world_ok w0 -> scripts_ok true scripts -> B < SIZE_LIMIT - 8 ->
   exists w, run_loop norm maxc (nb w0 + 4) (new_parser B) scripts 0 w0 = (ORet, w) \/
-            (run_loop norm maxc (nb w0 + 4) (new_parser B) scripts 0 w0 = (ODeadlock, w) /\ ~ ungated w0).
+            run_loop norm maxc (nb w0 + 4) (new_parser B) scripts 0 w0 = (ODeadlock, w).
 Proof.
   intros Wok Hs HB.
-  destruct (run_loop_ok true scripts Hs (nb w0 + 4) (new_parser B) 0%nat w0 (new_parser_ok B HB) eq_refl Wok
-              ltac:(cbn [new_parser held length]; lia)) as [_ O].
+  destruct (run_loop_ok LAny true scripts Hs (Forall_any scripts) (nb w0 + 4) (new_parser B) 0%nat w0 (new_parser_ok B HB) eq_refl Wok
+              ltac:(cbn [new_parser held length]; lia) ltac:(discriminate)) as [_ O].
   destruct (run_loop norm maxc (nb w0 + 4) (new_parser B) scripts 0 w0) as [o w]. exists w. cbn [fst] in O.
-  destruct O as [[->|[-> NU]]|[X _]]; [left; reflexivity|right; split; [reflexivity|exact NU]|discriminate X].
-Qed.
-
-(* C12: without gating (all bytes available, then EOF) the connection task always returns, wherever the
-   transport EOF / error / zero-length write / spurious wake-ups occur *)
-Theorem run_loop_terminates scripts B w0 :
-  world_ok w0 -> scripts_ok true scripts -> B < SIZE_LIMIT - 8 -> ungated w0 ->
-  exists w, run_loop norm maxc (nb w0 + 4) (new_parser B) scripts 0 w0 = (ORet, w).
-Proof.
-  intros Wok Hs HB U. destruct (run_loop_total scripts B w0 Wok Hs HB) as (w & [E|[_ NU]]); [exists w; exact E|contradiction].
+  destruct O as [[[->|[-> NU]]|[X _]]|[_ ->]]; [left; reflexivity|right; reflexivity|discriminate X|right; reflexivity].
 Qed.
 
 (* without the stream-order requirement on scripts: the only possible panic is the handler's own unwrap of a
@@ -1805,14 +2123,97 @@ Qed.
 Theorem run_loop_total_lax scripts B w0 :
   world_ok w0 -> scripts_ok false scripts -> B < SIZE_LIMIT - 8 ->
   exists w, run_loop norm maxc (nb w0 + 4) (new_parser B) scripts 0 w0 = (ORet, w) \/
-            (run_loop norm maxc (nb w0 + 4) (new_parser B) scripts 0 w0 = (ODeadlock, w) /\ ~ ungated w0) \/
+            run_loop norm maxc (nb w0 + 4) (new_parser B) scripts 0 w0 = (ODeadlock, w) \/
             run_loop norm maxc (nb w0 + 4) (new_parser B) scripts 0 w0 = (OPanic 70, w).
 Proof.
   intros Wok Hs HB.
-  destruct (run_loop_ok false scripts Hs (nb w0 + 4) (new_parser B) 0%nat w0 (new_parser_ok B HB) eq_refl Wok
-              ltac:(cbn [new_parser held length]; lia)) as [_ O].
+  destruct (run_loop_ok LAny false scripts Hs (Forall_any scripts) (nb w0 + 4) (new_parser B) 0%nat w0 (new_parser_ok B HB) eq_refl Wok
+              ltac:(cbn [new_parser held length]; lia) ltac:(discriminate)) as [_ O].
   destruct (run_loop norm maxc (nb w0 + 4) (new_parser B) scripts 0 w0) as [o w]. exists w. cbn [fst] in O.
-  destruct O as [[->|[-> NU]]|[_ ->]]; [left; reflexivity|right; left; split; [reflexivity|exact NU]|right; right; reflexivity].
+  destruct O as [[[->|[-> NU]]|[_ ->]]|[_ ->]];
+    [left; reflexivity|right; left; reflexivity|right; right; reflexivity|right; left; reflexivity].
+Qed.
+
+(* Layer (ii): when the handlers cannot reach a StreamWriter op with Request.lock held, the task waits only for a
+   client that waits for it: ODeadlock implies that the client is gated. *)
+Lemma run_loop_waits m strict scripts B w0 :
+  m <> LAny -> world_ok w0 -> scripts_ok strict scripts -> Forall (lm_script m) scripts -> B < SIZE_LIMIT - 8 ->
+  (m = LAwait -> no_fault (wscript w0)) ->
+  exists w, run_loop norm maxc (nb w0 + 4) (new_parser B) scripts 0 w0 = (ORet, w) \/
+            (run_loop norm maxc (nb w0 + 4) (new_parser B) scripts 0 w0 = (ODeadlock, w) /\ ~ ungated w0) \/
+            (strict = false /\ run_loop norm maxc (nb w0 + 4) (new_parser B) scripts 0 w0 = (OPanic 70, w)).
+Proof.
+  intros Hm Wok Hs Hms HB Hnf.
+  destruct (run_loop_ok m strict scripts Hs Hms (nb w0 + 4) (new_parser B) 0%nat w0 (new_parser_ok B HB) eq_refl Wok
+              ltac:(cbn [new_parser held length]; lia) Hnf) as [_ O].
+  destruct (run_loop norm maxc (nb w0 + 4) (new_parser B) scripts 0 w0) as [o w]. exists w. cbn [fst] in O.
+  destruct O as [[[->|[-> NU]]|[Es ->]]|[X _]];
+    [left; reflexivity|right; left; split; [reflexivity|exact NU]|right; right; split; [exact Es|reflexivity]|contradiction].
+Qed.
+
+(* (ii-a) the transport has no write fault (no zero-length write, no write error) and the handlers await the reads
+   they start: every awaited operation returns with the lock released *)
+Theorem run_loop_waits_fault_free scripts B w0 :
+  world_ok w0 -> scripts_ok true scripts -> Forall no_abandoned_read scripts -> no_fault (wscript w0) -> B < SIZE_LIMIT - 8 ->
+  exists w, run_loop norm maxc (nb w0 + 4) (new_parser B) scripts 0 w0 = (ORet, w) \/
+            (run_loop norm maxc (nb w0 + 4) (new_parser B) scripts 0 w0 = (ODeadlock, w) /\ ~ ungated w0).
+Proof.
+  intros Wok Hs Hna Hnf HB.
+  destruct (run_loop_waits LAwait true scripts B w0 ltac:(discriminate) Wok Hs Hna HB (fun _ => Hnf)) as (w & [E|[E|[E _]]]);
+    exists w; [left; exact E|right; exact E|discriminate E].
+Qed.
+
+Theorem run_loop_waits_fault_free_lax scripts B w0 :
+  world_ok w0 -> scripts_ok false scripts -> Forall no_abandoned_read scripts -> no_fault (wscript w0) -> B < SIZE_LIMIT - 8 ->
+  exists w, run_loop norm maxc (nb w0 + 4) (new_parser B) scripts 0 w0 = (ORet, w) \/
+            (run_loop norm maxc (nb w0 + 4) (new_parser B) scripts 0 w0 = (ODeadlock, w) /\ ~ ungated w0) \/
+            run_loop norm maxc (nb w0 + 4) (new_parser B) scripts 0 w0 = (OPanic 70, w).
+Proof.
+  intros Wok Hs Hna Hnf HB.
+  destruct (run_loop_waits LAwait false scripts B w0 ltac:(discriminate) Wok Hs Hna HB (fun _ => Hnf)) as (w & [E|[E|[_ E]]]);
+    exists w; [left; exact E|right; left; exact E|right; right; exact E].
+Qed.
+
+(* C12: without gating (all bytes available, then EOF) the connection task then always returns, wherever the
+   transport EOF / read error / spurious wake-ups / partial writes occur *)
+Theorem run_loop_terminates_fault_free scripts B w0 :
+  world_ok w0 -> scripts_ok true scripts -> Forall no_abandoned_read scripts -> no_fault (wscript w0) -> B < SIZE_LIMIT - 8 ->
+  ungated w0 ->
+  exists w, run_loop norm maxc (nb w0 + 4) (new_parser B) scripts 0 w0 = (ORet, w).
+Proof.
+  intros Wok Hs Hna Hnf HB U.
+  destruct (run_loop_waits_fault_free scripts B w0 Wok Hs Hna Hnf HB) as (w & [E|[_ NU]]); [exists w; exact E|contradiction].
+Qed.
+
+(* (ii-b) the handlers propagate I/O errors: a failed reply flush ends the handler (op 10 returns the error), so no
+   StreamWriter op runs with the lock held — for ANY write script, faults included *)
+Theorem run_loop_waits_propagating scripts B w0 :
+  world_ok w0 -> scripts_ok true scripts -> Forall prop_script scripts -> B < SIZE_LIMIT - 8 ->
+  exists w, run_loop norm maxc (nb w0 + 4) (new_parser B) scripts 0 w0 = (ORet, w) \/
+            (run_loop norm maxc (nb w0 + 4) (new_parser B) scripts 0 w0 = (ODeadlock, w) /\ ~ ungated w0).
+Proof.
+  intros Wok Hs Hps HB.
+  destruct (run_loop_waits LProp true scripts B w0 ltac:(discriminate) Wok Hs Hps HB ltac:(discriminate)) as (w & [E|[E|[E _]]]);
+    exists w; [left; exact E|right; exact E|discriminate E].
+Qed.
+
+Theorem run_loop_waits_propagating_lax scripts B w0 :
+  world_ok w0 -> scripts_ok false scripts -> Forall prop_script scripts -> B < SIZE_LIMIT - 8 ->
+  exists w, run_loop norm maxc (nb w0 + 4) (new_parser B) scripts 0 w0 = (ORet, w) \/
+            (run_loop norm maxc (nb w0 + 4) (new_parser B) scripts 0 w0 = (ODeadlock, w) /\ ~ ungated w0) \/
+            run_loop norm maxc (nb w0 + 4) (new_parser B) scripts 0 w0 = (OPanic 70, w).
+Proof.
+  intros Wok Hs Hps HB.
+  destruct (run_loop_waits LProp false scripts B w0 ltac:(discriminate) Wok Hs Hps HB ltac:(discriminate)) as (w & [E|[E|[_ E]]]);
+    exists w; [left; exact E|right; left; exact E|right; right; exact E].
+Qed.
+
+Theorem run_loop_terminates_propagating scripts B w0 :
+  world_ok w0 -> scripts_ok true scripts -> Forall prop_script scripts -> B < SIZE_LIMIT - 8 -> ungated w0 ->
+  exists w, run_loop norm maxc (nb w0 + 4) (new_parser B) scripts 0 w0 = (ORet, w).
+Proof.
+  intros Wok Hs Hps HB U.
+  destruct (run_loop_waits_propagating scripts B w0 Wok Hs Hps HB) as (w & [E|[_ NU]]); [exists w; exact E|contradiction].
 Qed.
 End ConnTotal.
 
@@ -1842,6 +2243,9 @@ Proof. intros [->|[-> _]]; split; try discriminate; intros n; discriminate. Qed.
 Lemma okhalt70_no_panic w o : okhalt70 true w o -> o <> OFuel /\ forall n, o <> OPanic n.
 Proof. intros [H|[H _]]; [exact (okhalt_no_panic w o H)|discriminate H]. Qed.
 
+Lemma okhaltm_no_panic m w o : okhaltm m true w o -> o <> OFuel /\ forall n, o <> OPanic n.
+Proof. intros [H|[_ ->]]; [exact (okhalt70_no_panic w o H)|split; [discriminate|intros n; discriminate]]. Qed.
+
 (* ---- the hypotheses are satisfiable: a KeepConn client sending the same Responder request twice, a handler
    that reads 2 bytes, reads to the end, waits for writeable, writes 2 bytes on stdout and exits; read script with
    short reads, spurious wake-ups and an error; write script with a wake-up, a 1-byte write and a zero write ---- *)
@@ -1865,13 +2269,46 @@ Proof.
   repeat (apply bytes_ok_app; split); repeat (constructor; [unfold byte_ok; lia|]); constructor.
 Qed.
 
-Example ex_terminates :
-  exists w, run_loop (fun b => b) 10 (nb (ex_world 1 0 [3; 0; 5; R_ERR] [0; 1; W_ZERO]) + 4) (new_parser 0) [ex_script] 0
-                     (ex_world 1 0 [3; 0; 5; R_ERR] [0; 1; W_ZERO]) = (ORet, w).
+Example ex_script_awaits : Forall no_abandoned_read [ex_script].
 Proof.
-  apply run_loop_terminates.
+  constructor; [|constructor]. unfold ex_script.
+  apply NA_read. apply NA_read_all. apply NA_writeable. apply NA_write.
+  change (drop 2 [104; 105; 8; 0; 0]) with [8; 0; 0]. apply NA_exit.
+Qed.
+
+Example ex_terminates :
+  exists w, run_loop (fun b => b) 10 (nb (ex_world 1 0 [3; 0; 5; R_ERR] [0; 1; 7]) + 4) (new_parser 0) [ex_script] 0
+                     (ex_world 1 0 [3; 0; 5; R_ERR] [0; 1; 7]) = (ORet, w).
+Proof.
+  apply run_loop_terminates_fault_free.
   - apply ex_world_ok. lia.
   - exact ex_script_ok.
+  - exact ex_script_awaits.
+  - repeat constructor; discriminate.
+  - reflexivity.
+  - constructor; [reflexivity|constructor].
+Qed.
+
+(* a handler that propagates I/O errors, on a transport with a wake-up, a 1-byte write and a zero-length write *)
+Definition ex_prop_script : list N := [10; 2; 10; 16; 6; 6; 2; 104; 105; 7; 6; 8; 0; 0].
+
+Example ex_prop_script_ok : scripts_ok true [ex_prop_script] /\ Forall prop_script [ex_prop_script].
+Proof.
+  split; (constructor; [|constructor]).
+  - intros role. unfold ex_prop_script. apply SO_readq. apply SO_readq. apply SO_write.
+    change (drop 2 [104; 105; 7; 6; 8; 0; 0]) with [7; 6; 8; 0; 0]. apply SO_flush. apply SO_exit. left. reflexivity.
+  - unfold ex_prop_script. apply PS_readq. apply PS_readq. apply PS_write.
+    change (drop 2 [104; 105; 7; 6; 8; 0; 0]) with [7; 6; 8; 0; 0]. apply PS_flush. apply PS_exit.
+Qed.
+
+Example ex_terminates_propagating :
+  exists w, run_loop (fun b => b) 10 (nb (ex_world 1 0 [3; 0; 5; R_ERR] [0; 1; W_ZERO]) + 4) (new_parser 0) [ex_prop_script] 0
+                     (ex_world 1 0 [3; 0; 5; R_ERR] [0; 1; W_ZERO]) = (ORet, w).
+Proof.
+  apply run_loop_terminates_propagating.
+  - apply ex_world_ok. lia.
+  - apply ex_prop_script_ok.
+  - apply ex_prop_script_ok.
   - reflexivity.
   - constructor; [reflexivity|constructor].
 Qed.
@@ -1881,6 +2318,44 @@ Qed.
 Example ex_deadlock :
   fst (run_loop (fun b => b) 10 (nb (ex_world 1 1 [] []) + 4) (new_parser 0) [ex_script] 0 (ex_world 1 1 [] [])) = ODeadlock.
 Proof. vm_compute. reflexivity. Qed.
+(* Layer (iii): without a restriction on handlers or transport the old statement ("an ungated client is always
+   answered by ORet") is FALSE (known finding F5): a Responder request with a GetValues record before its Stdin; the
+   transport fails the write of the GetValues reply; the first read returns that error with Request.lock kept ("keep
+   lock even in the Err case"); the handler ignores it, reads again and then writes to stdout: the StreamWriter waits
+   for the lock for ever, although the client waits for nothing. *)
+Definition f5_request : bytes :=
+  [1; 1; 0; 1; 0; 8; 0; 0;  0; 1; 0; 0; 0; 0; 0; 0] ++ [1; 4; 0; 1; 0; 0; 0; 0] ++
+  [1; 9; 0; 0; 0; 16; 0; 0;  14; 0; 70; 67; 71; 73; 95; 77; 65; 88; 95; 67; 79; 78; 78; 83] ++
+  [1; 5; 0; 1; 0; 3; 0; 0; 97; 98; 99] ++ [1; 5; 0; 1; 0; 0; 0; 0].
+Definition f5_world : world := mkW [] [W_ERR] [(0, 0, f5_request)] [] 0 1 0 false false [].
+Definition f5_script : list N := [1; 16; 1; 16; 6; 6; 2; 104; 105; 8; 0; 0].
+
+Theorem run_loop_terminates_unrestricted_refuted :
+  exists (w0 : world) (scripts : list (list N)) (B : N),
+    world_ok w0 /\ scripts_ok true scripts /\ B < SIZE_LIMIT - 8 /\ ungated w0 /\
+    fst (run_loop (fun b => b) 10 (nb w0 + 4) (new_parser B) scripts 0 w0) = ODeadlock.
+Proof.
+  exists f5_world, [f5_script], 64. split; [|split; [|split; [|split]]].
+  - constructor; [|constructor]. cbn [snd]. unfold f5_request.
+    repeat (apply bytes_ok_app; split); repeat (constructor; [unfold byte_ok; lia|]); constructor.
+  - constructor; [|constructor]. intros role. unfold f5_script. apply SO_read. apply SO_read. apply SO_write.
+    change (drop 2 [104; 105; 8; 0; 0]) with [8; 0; 0]. apply SO_exit. left. reflexivity.
+  - reflexivity.
+  - constructor; [reflexivity|constructor].
+  - vm_compute. reflexivity.
+Qed.
+(* the same handler with the flush (op 7) instead of the write, and the F6 scenario (abandoned read, op 11, while the
+   reply is partly flushed on a fault-free transport) *)
+Example ex_f5_flush :
+  fst (run_loop (fun b => b) 10 (nb f5_world + 4) (new_parser 64) [[1; 16; 1; 16; 7; 6; 8; 0; 0]] 0 f5_world) = ODeadlock.
+Proof. vm_compute. reflexivity. Qed.
+Example ex_f6_abandoned_read :
+  let w := mkW [] [3; 0] [(0, 0, f5_request)] [] 0 1 0 false false [] in
+  no_fault (wscript w) /\ ungated w /\
+  fst (run_loop (fun b => b) 10 (nb w + 4) (new_parser 64) [[1; 16; 11; 5; 6; 6; 2; 104; 105; 8; 0; 0]] 0 w) = ODeadlock.
+Proof.
+  split; [repeat constructor; discriminate|]. split; [constructor; [reflexivity|constructor]|]. vm_compute. reflexivity.
+Qed.
 (* an exit status outside ExitStatus (impossible in Rust): make_request_epilogue has no value *)
 Example ex_bad_exit :
   fst (run_loop (fun b => b) 10 (nb (ex_world 1 0 [] []) + 4) (new_parser 0) [[8; 1; 0]] 0 (ex_world 1 0 [] [])) = OPanic 61.
@@ -1914,6 +2389,16 @@ Print Assumptions read_all_ok.
 Print Assumptions run_handler_ok.
 Print Assumptions parse_request_ok.
 Print Assumptions run_loop_ok.
+Print Assumptions input_loop_lock.
+Print Assumptions poll_input_lock.
+Print Assumptions await_input_lock.
+Print Assumptions await_input_unlocked.
 Print Assumptions run_loop_total.
-Print Assumptions run_loop_terminates.
 Print Assumptions run_loop_total_lax.
+Print Assumptions run_loop_waits_fault_free.
+Print Assumptions run_loop_waits_fault_free_lax.
+Print Assumptions run_loop_terminates_fault_free.
+Print Assumptions run_loop_waits_propagating.
+Print Assumptions run_loop_waits_propagating_lax.
+Print Assumptions run_loop_terminates_propagating.
+Print Assumptions run_loop_terminates_unrestricted_refuted.
